@@ -89,24 +89,32 @@ def hasDoubleUs : Str → Bool
   | _ :: cs => hasDoubleUs cs
   | [] => false
 
+/-- optional sign: (negative?, rest) -/
+def splitSign (s : Str) : Bool × Str :=
+  match s with
+  | '+' :: t => (false, t)
+  | '-' :: t => (true, t)
+  | _ => (false, s)
+
+/-- base 16: an optional `0x` / `0X`, and one `_` allowed right after it -/
+def skipHexPrefix (s : Str) : Str :=
+  match s with
+  | '0' :: x :: t =>
+    if x = 'x' || x = 'X' then (match t with | '_' :: u => u | _ => t) else s
+  | _ => s
+
+/-- the digit run: not empty, no `_` at either end, no `__` -/
+def digitsOk (body : Str) : Bool :=
+  !body.isEmpty && body.head? != some '_' && body.getLast? != some '_' && !hasDoubleUs body
+
 /-- `int(s, 16)` succeeds with a non-negative result (`PyLong_FromString`: blanks, sign, optional
 `0x`/`0X` and one `_` after it, digits with single `_` between them, blanks) -/
 def pyIntHexNonneg (s : Str) : Bool :=
-  let s1 := s.dropWhile isSpace
-  let (neg, s2) : Bool × Str :=
-    match s1 with
-    | '+' :: t => (false, t)
-    | '-' :: t => (true, t)
-    | _ => (false, s1)
-  let s3 : Str :=
-    match s2 with
-    | '0' :: x :: t =>
-      if x = 'x' || x = 'X' then (match t with | '_' :: u => u | _ => t) else s2
-    | _ => s2
+  let ns := splitSign (s.dropWhile isSpace)
+  let s3 := skipHexPrefix ns.2
   let body := s3.takeWhile isHexOrUs
   let rest := s3.dropWhile isHexOrUs
-  !body.isEmpty && body.head? != some '_' && body.getLast? != some '_' && !hasDoubleUs body
-    && rest.all isSpace && (!neg || body.all (fun c => c = '0' || c = '_'))
+  digitsOk body && rest.all isSpace && (!ns.1 || body.all (fun c => c = '0' || c = '_'))
 
 /-- `uuid.UUID(s)` does not raise ValueError -/
 def uuidAccepts (s : Str) : Bool :=
